@@ -60,10 +60,23 @@ def gen(seed):
     sub = None
     if world['layers'] and rng.random() < 0.6:
         sub = [rng.choice(world['layers'])['name'] + '$']
+    knobs = {**({'defaults_split': rng.randint(0, 99)} if rng.random() < 0.3 else {}),
+             'child_skew': skew, 'clock_base': 1.7e9 + rng.random() * 1e6}
+    j = rng.randint(2, 4)
+    if seed % 10 == 7:
+        # a test object that stands for several test cases: the shuffle draws must not depend on
+        # countTestCases() of layers a process does not run
+        srng = random.Random(seed ^ 0xC11)
+        cs = [c for m_ in world['modules'] for c in m_['classes']]
+        for _ in range(srng.randint(1, 2)):
+            srng.choice(srng.choice(cs)['tests'])['count'] = srng.randint(2, 5)
+    if seed % 10 == 3:
+        # other code of the process draws from the module-level `random` generator while the
+        # runner shuffles (a thread started by a test module at import): the order must depend
+        # on the seed alone
+        knobs['global_random_noise'] = True
     return {'property': ID, 'seed': seed, 'world': world, 'plan': plan, 'opt': opt,
-            'sched': {'prng': seed},
-            'knobs': {**({'defaults_split': rng.randint(0, 99)} if rng.random() < 0.3 else {}), 'child_skew': skew, 'clock_base': 1.7e9 + rng.random() * 1e6},
-            'j': rng.randint(2, 4), 'layer_subset': sub}
+            'sched': {'prng': seed}, 'knobs': knobs, 'j': j, 'layer_subset': sub}
 
 
 def orders(m, T):
